@@ -276,7 +276,8 @@ class Result:
     """Everything observable about one finished run."""
 
     __slots__ = ("exit", "stdout", "stderr", "trace", "fs", "flags",
-                 "traceback", "peer_log", "lines", "steps", "fired")
+                 "traceback", "peer_log", "lines", "steps", "fired",
+                 "step_lines")
 
     def digest(self):
         h = hashlib.sha256()
@@ -339,6 +340,7 @@ class World:
         self.flags = set()
         self.lines = 0
         self.count_lines = False
+        self.step_lines = []
         self.frozen_fs = None
 
     # ------------------------------------------------------------------
@@ -350,6 +352,8 @@ class World:
             return None
         k = self.k
         self.k = k + 1
+        if self.count_lines:
+            self.step_lines.append((k, kind, self.lines))
         flt = self.faults.get(k) if faultable and not self.frozen else None
         if flt is None:
             self.trace.append((k, kind, path, nbytes, None))
@@ -718,6 +722,7 @@ def run_tool(world, tool, argv):
     res.flags = set(world.flags)
     res.peer_log = list(world.peer.log) if world.peer is not None else []
     res.lines = world.lines
+    res.step_lines = list(world.step_lines)
     res.steps = world.k
     res.fired = [f.to_json() for f in
                  list(world.faults.values())
